@@ -408,7 +408,7 @@ func maxInt(a, b int) int {
 const (
 	rlimitFirst  = 25000000  // first attempt (roughly 6-10 s of an idle core)
 	rlimitRetry  = 200000000 // last attempt for obligations every solver left open (up to maxRetry per function)
-	wallFirst    = 60 * time.Second
+	wallFirst    = 150 * time.Second
 	wallRetry    = 240 * time.Second
 	wallSecond   = 45 * time.Second // second opinions (z3 4.8.12, cvc5): helpful extras, limited by time
 	maxRetry     = 4
